@@ -1,6 +1,6 @@
 """Contracts for the shared-core exception registry (C11; C09/C10 reuse the write-set part)."""
 from pyvc.contracts import contract
-from pyvc.spec import implies, call_count, call_arg, call_result, dict_set, is_int_list, forall_key_codes_in, values_prefix_in_set, int_lists_dict
+from pyvc.spec import implies, call_count, call_arg, call_result, dict_set, is_int_list, forall_key_codes_in, values_prefix_in_set, int_lists_dict, set_from_values_prefix, codes_all_registered
 
 E = "pyopenapi_gen.emitters.exceptions_emitter"
 
@@ -16,7 +16,7 @@ def _registry_shape(result):
 
 
 # ---- _update_registry -------------------------------------------------------------------------------------------
-c = contract(f"{E}:ExceptionsEmitter._update_registry", props=["C11", "C06"], types={"registry_path": "str", "client_name": "str", "status_codes": "list"},
+c = contract(f"{E}:ExceptionsEmitter._update_registry", props=["C11", "C06", "C09"], types={"registry_path": "str", "client_name": "str", "status_codes": "list"},
              int_sets=["all_codes"], track_calls=True,
              nothrow_calls=["os.path.exists", "open", "json.load", "json.dump"],
              dependency_post={"json.load": _registry_shape})
@@ -32,6 +32,19 @@ def ur_pre(self, registry_path, client_name, status_codes):
 def ur_inv(registry, all_codes, i):
     return values_prefix_in_set(registry, i, all_codes)
 
+@c.invariant(0)
+def ur_inv_exact(registry, all_codes, i):
+    return set_from_values_prefix(registry, i, all_codes)
+
+@c.ensures(props=["C09", "C11"], note="C09 (independent of prior runs) / C11: nothing stale or invented — every returned code is a code of some client entry of the "
+                                       "registry AS WRITTEN BACK (so a code this client used in an earlier generation and no longer uses does not leak into the aliases)")
+def ur_exact(self, registry_path, client_name, status_codes, old, result):
+    return call_count("json.dump") == 1 and codes_all_registered(call_arg("json.dump", 0, 0), result)
+
+@c.ensures(note="this client's entry in the written registry is exactly its current status codes")
+def ur_own_entry(self, registry_path, client_name, status_codes, old, result):
+    return call_count("json.dump") == 1 and set(call_arg("json.dump", 0, 0)[client_name]) == set(status_codes)
+
 @c.ensures(note="C11: the registry that is written back keeps every other client's entry and records this client's codes")
 def ur_written(self, registry_path, client_name, status_codes, old, result):
     return (call_count("json.dump") == 1
@@ -44,7 +57,7 @@ def ur_covers(self, registry_path, client_name, status_codes, old, result):
 
 
 # ---- _is_shared_core ------------------------------------------------------------------------------------------------
-c = contract(f"{E}:ExceptionsEmitter._is_shared_core", props=["C11", "C06"], types={"core_dir": "str"},
+c = contract(f"{E}:ExceptionsEmitter._is_shared_core", props=["C11", "C06", "C09"], types={"core_dir": "str"},
              nothrow_calls=["Path", "resolve"])
 
 @c.requires(typing=True)
@@ -61,7 +74,7 @@ def isc_by_names(self, core_dir, client_package_name, result):
 
 
 # ---- emit ----------------------------------------------------------------------------------------------------------------
-c = contract(f"{E}:ExceptionsEmitter.emit", props=["C11", "C06"], types={"output_dir": "str"}, track_calls=True,
+c = contract(f"{E}:ExceptionsEmitter.emit", props=["C11", "C06", "C09"], types={"output_dir": "str"}, track_calls=True,
              nothrow_calls=["os.path.join", "RenderContext", "set_current_file", "render_imports", "join", "open", "write", "sort"],
              abstract_unsupported=True, tracked_names=["_update_registry", "_generate_for_codes", "_is_shared_core", "all_codes"])
 
